@@ -2,7 +2,8 @@
    Statements only; every proof is [exact <lemma>].  Model: Model/TextMap.v
    (tied to src/text_archive.rs by the correspondence check `./check C07`). *)
 From Coq Require Import List NArith Bool Sorted.
-From Mila Require Import Model.TextMap Proofs.TextMapProofs Proofs.TextMapOrder.
+From Mila Require Import Lib.Machine Model.TextMap Proofs.TextMapProofs Proofs.TextMapOrder.
+From Mila Require Model.TextFormat Proofs.TextTotal.
 Import ListNotations.
 
 (* --- step laws: refinement to "a list of keys and a function key -> message" --- *)
@@ -68,6 +69,13 @@ Proof. exact dirty_after_set. Qed.
 
 Theorem C07_dirty_only_by_set : forall ops, t_dirty (tm_run ops) = true -> exists k m, In (TSet k m) ops.
 Proof. exact dirty_only_by_set. Qed.
+
+(* ... and clear on a PARSED archive: whatever TextArchive::from_archive / from_bytes accepts (Model/TextFormat.v, the reader
+   of C06) has dirty = false - unconditionally, not only for round-tripped archives *)
+Theorem C07_dirty_parsed : forall fmt a t, TextFormat.from_archive fmt a = Ok t -> t_dirty t = false.
+Proof. exact TextTotal.from_archive_is_clean. Qed.
+Theorem C07_dirty_parsed_bytes : forall fmt e f t, TextFormat.from_bytes fmt e f = Ok t -> t_dirty t = false.
+Proof. exact TextTotal.from_bytes_is_clean. Qed.
 
 (* non-vacuity: a history with re-set, delete and re-add; escape sequences stored as newlines *)
 Example C07_example :
